@@ -19,6 +19,8 @@ delay_ms_for_try: min(c//2, max) <= result <= min(c, max) with c = base * 2**min
 """
 from __future__ import annotations
 
+import os
+
 import z3
 
 from vc import core, pyvc
@@ -374,14 +376,223 @@ def classifier_contracts():
     return [a, b]
 
 
+# ---- classification: which exception objects the classifiers look at ------------------------------------------------------------
+# "raise any other error immediately": an error is classified by its own class and fields; the only other exception object that
+# may decide is its EXPLICIT cause (`raise X from Y`, e.__cause__), followed recursively.  The implicit context (an error raised
+# while another one is being handled, e.__context__) says nothing about the error itself: a permanent error raised inside the
+# handler of a transient one is permanent.
+#
+# Whole-function contracts: isinstance(e, C) is the uninterpreted predicate isinst_C(e), guarded by the input `plain` ("e is an
+# instance of none of the classes the classifier tests for"); the recursive call is the predicate T / L itself.  The errno table,
+# the socket constants and the message table are arbitrary (symbolic) inputs, so the statement holds for every content of them.
+
+CHAIN_TYPES = {
+    'e': 'U', '.status': 'int', '.body': 'str', '.error_codes': 'Array[U, bool]', '.message': 'str', '.strerror': 'str', '.errno': 'int',
+    '.os_error': 'U', '.args': 'Array[int, str]', '.__cause__': 'U', '.__context__': 'U', '.__suppress_context__': 'bool',
+}
+# for the chain contracts the texts are irrelevant: `'lit' in e.body / e.message / e.args[0]` is an arbitrary predicate per literal
+# (a set of literals, like error_codes) - no string theory in their VCs
+CHAIN_TYPES_ABSTRACT = dict(CHAIN_TYPES, **{'.body': 'Array[U, bool]', '.message': 'Array[U, bool]', '.args': 'Array[int, Array[U, bool]]'})
+CHAIN_ATTRS_FORBIDDEN = ('__context__', '__suppress_context__', '__traceback__')
+CLASSIFIERS = {'is_transient_error': 'T', 'is_limited_retries_error': 'L'}
+
+
+def _isinstance_plain(eng, st, args, kw, node):
+    name = pyvc._dotted(node.args[1])
+    if name is None:
+        raise core.Undecided('isinstance against a computed class')
+    hit = eng.uf('isinst_' + name.replace('.', '_'), ['U'], 'bool')(to_z3(args[0], 'U'))
+    plain = st.env.get('plain')
+    return hit if plain is None else z3.And(z3.Not(plain), hit)
+
+
+def _fn_of(src, name):
+    import ast
+
+    for n in ast.parse(src).body:
+        if isinstance(n, (ast.FunctionDef, ast.AsyncFunctionDef)) and n.name == name:
+            return n
+    raise core.Undecided('anchor-moved: %s not found' % name)
+
+
+def _tail_after_class_tests(fn):
+    """(first, last) header texts of the statements that follow the last top-level `if` testing isinstance(...): what the
+    classifier does with an error none of whose class tests returned"""
+    import ast
+
+    last = -1
+    for i, s in enumerate(fn.body):
+        if isinstance(s, ast.If) and any(isinstance(c, ast.Call) and pyvc._dotted(c.func) == 'isinstance' for c in ast.walk(s.test)):
+            last = i
+    if last < 0 or last + 1 >= len(fn.body):
+        raise core.Undecided('anchor-moved: %s has no statements after its class tests' % fn.name)
+    return pyvc._header_text(fn.body[last + 1]), pyvc._header_text(fn.body[-1])
+
+
+def chain_contracts(src):
+    out = []
+    for qn, pred in CLASSIFIERS.items():
+        chain = '(e.__cause__ is not None and %s(e.__cause__))' % pred
+        common = dict(
+            path=PATH, qualname=qn, types=dict(CHAIN_TYPES_ABSTRACT), strings=True, spec_funcs={pred: (['U'], 'bool')}, raises={},
+            calls={'isinstance': _isinstance_plain, qn: _pred(pred)},
+            consts={'socket.EAI_AGAIN': z3.Int('EAI_AGAIN'), 'socket.EAI_NONAME': z3.Int('EAI_NONAME')},
+        )
+        tables = {'aiodocker': 'U', 'RETRYABLE_ERRNOS': 'Array[int, bool]', 'RETRY_ONCE_BAD_REQUEST_ERROR_MESSAGES': 'List[U]'}
+        out.append(Contract(
+            label='%s[plain error]' % qn, extra_inputs=dict(tables, plain='bool'),
+            ensures=[('an-error-of-no-tested-class-is-classified-by-its-explicit-cause-alone', 'implies(plain, result == %s)' % chain)],
+            canaries=[('a-plain-error-never-inherits-from-its-cause', 'implies(plain, result == False)')],
+            **common))
+        first, last = _tail_after_class_tests(_fn_of(src, qn))
+        out.append(Contract(
+            label='%s[after the class tests]' % qn, fragment=(first, last), extra_inputs=dict(tables, e='U'),
+            ensures=[('only-the-explicit-cause-chain-is-followed', 'result == %s' % chain)],
+            canaries=[('the-cause-is-never-followed', 'result == False')],
+            **common))
+    return out
+
+
+def chain_scans(ctx, src):
+    """decided on the real AST: the three classifiers read none of the implicit-chain attributes of an exception"""
+    import ast
+
+    for qn in list(CLASSIFIERS) + ['is_rate_limit_error']:
+        fn = _fn_of(src, qn)
+        hits = sorted({'%s@L%d' % (n.attr, n.lineno) for n in ast.walk(fn) if isinstance(n, ast.Attribute) and n.attr in CHAIN_ATTRS_FORBIDDEN}
+                      | {'%r@L%d' % (n.value, n.lineno) for n in ast.walk(fn) if isinstance(n, ast.Constant) and n.value in CHAIN_ATTRS_FORBIDDEN})
+        ctx.add(core.decided('%s/scan/reads-no-implicit-exception-context' % qn, not hits, 'reads of __context__ / __suppress_context__ / __traceback__: %s' % (hits or 'none')))
+
+
+# ---- where the classified fields come from: hailtop.httpx -------------------------------------------------------------------------
+# is_rate_limit_error / is_transient_error (403 + 'rateLimitExceeded' in e.body) and is_limited_retries_error (400 + a listed message
+# in e.body) decide from the `body` of the hailtop.httpx.ClientResponseError that ClientSession.request raises.  "Retries every
+# rate-limit failure" therefore needs: for a response with status >= 400 (and raise_for_status) the error that is raised carries
+# the response's status and the WHOLE decoded payload of that response as `body`, and the constructor stores it unchanged.
+# The transport (aiohttp's _request) is an oracle: it answers with an arbitrary response or raises an arbitrary exception;
+# payload_of(resp) is what resp.read() yields, utf8_decoded(bytes) is bytes.decode().
+
+HTTPX = 'hail/python/hailtop/httpx.py'
+
+
+def _transport(eng, st, args, kw, node):
+    r = z3.Const(pyvc.fresh_name('resp'), pyvc.U)
+    e = z3.Const(pyvc.fresh_name('transport_exc'), pyvc.U)
+
+    def ok(s):
+        s.env['the_resp'] = r
+
+    def bad(s):
+        s.env['transport_failed'] = True
+
+    raise Fork(node, [('transport-answers', None, 'value', r, ok), ('transport-raises', None, 'raise', SExc(term=e), bad)])
+
+
+def _resp_read(eng, st, args, kw, node):
+    eng.oblige(st, 'body/read-from-the-response-that-was-received@L%d' % node.lineno, to_z3(args[0], 'U') == st.env['the_resp'])
+    return eng.uf('payload_of', ['U'], 'U')(to_z3(args[0], 'U'))
+
+
+def _bytes_decode(eng, st, args, kw, node):
+    if len(args) != 1 or kw:
+        raise core.Undecided('bytes.decode with arguments (encoding / errors) is outside the model of the error body')
+    return eng.uf('utf8_decoded', ['U'], 'str')(to_z3(args[0], 'U'))
+
+
+def _client_response_error(eng, st, args, kw, node):
+    st.env['err_body'] = kw['body'] if 'body' in kw else (args[2] if len(args) > 2 else '')
+    st.env['err_status'] = kw.get('status', 0)
+    st.env['err_raised'] = True
+    return SExc('ClientResponseError')
+
+
+def httpx_contracts():
+    req = Contract(
+        path=HTTPX, qualname='ClientSession.request.request_and_raise_for_status', label='ClientSession.request[raise for status]',
+        types={'.status': 'int', '.reason': 'U'}, strings=True,
+        # the statements after the json/data preamble: the request itself and what is made of the response
+        fragment=('re:^resp = await self\\.client_session\\._request', 're:^return resp$'),
+        extra_inputs={'self': 'U', 'method': 'U', 'url': 'U', 'kwargs': 'U', 'raise_for_status': 'bool'},
+        calls={'self.client_session._request': _transport, '.read': _resp_read, '.decode': _bytes_decode, '.release': lambda eng, st, args, kw, node: None,
+               'raise:ClientResponseError': _client_response_error},
+        ghost_init={'the_resp': 'NORESP', 'err_body': "''", 'err_status': '0', 'err_raised': 'False', 'transport_failed': 'False'},
+        consts={'NORESP': z3.Const('no_resp', pyvc.U)},
+        spec_funcs={'payload_of': (['U'], 'U'), 'utf8_decoded': (['U'], 'str')},
+        ensures=[('returns-the-response-it-received', 'result == the_resp'),
+                 ('an-error-status-is-not-returned-when-raise_for_status', 'not (raise_for_status and the_resp.status >= 400)')],
+        raises={'*': True},
+        on_raise=[('the-error-carries-the-whole-decoded-response-body', 'implies(err_raised, err_body == utf8_decoded(payload_of(the_resp)))'),
+                  ('the-error-carries-the-response-status', 'implies(err_raised, err_status == the_resp.status)'),
+                  ('raises-only-for-error-statuses-or-what-the-transport-raised', 'transport_failed or isinst(exc, AssertionError) or (err_raised and raise_for_status and the_resp.status >= 400)')],
+        canaries=[('never-returns-a-response', 'False')],
+    )
+    ctor = Contract(
+        path=HTTPX, qualname='ClientResponseError.__init__', types={'request_info': 'U', 'history': 'U', 'body': 'str', 'kwargs': 'U'}, strings=True,
+        self_fields={'body': 'str'},
+        calls={'super': lambda eng, st, args, kw, node: z3.Const('super_object', pyvc.U), '.__init__': lambda eng, st, args, kw, node: None},
+        ensures=[('stores-the-body-it-was-given-unchanged', 'self.body == body')], raises={},
+        canaries=[('body-always-empty', "self.body == ''")],
+    )
+    return [req, ctor]
+
+
+def _limited_http_setup(eng, st):
+    tbl = eng.modconsts.get('RETRY_ONCE_BAD_REQUEST_ERROR_MESSAGES')
+    if not isinstance(tbl, frozenset) or not tbl or not all(isinstance(x, str) for x in tbl):
+        raise core.Undecided('anchor-moved: RETRY_ONCE_BAD_REQUEST_ERROR_MESSAGES is not a literal, non-empty set of strings')
+    st.env['RETRY_ONCE_BAD_REQUEST_ERROR_MESSAGES'] = eng.list_of(sorted(tbl), 'str')
+    st.env['a_listed_message_is_in_the_body'] = z3.Or(*[z3.Contains(eng.attr_of_U(st.env['e'], 'body'), z3.StringVal(x)) for x in sorted(tbl)])
+
+
+def limited_http_contract():
+    """the http clause of is_limited_retries_error, with the module's real message table: 400 and a listed message ANYWHERE in e.body"""
+    return Contract(
+        path=PATH, qualname='is_limited_retries_error', label='is_limited_retries_error[http clause]', types=dict(CHAIN_TYPES), strings=True,
+        fragment=('re:^if isinstance\\(e, hailtop\\.httpx\\.ClientResponseError\\)', 1), extra_inputs={'e': 'U'}, setup=_limited_http_setup,
+        consts={'__expand_small_any__': True},
+        calls={'isinstance': _isinstance_plain}, spec_funcs={'isinst_hailtop_httpx_ClientResponseError': (['U'], 'bool')},
+        ensures=[('a-400-with-a-listed-message-anywhere-in-the-body-is-a-limited-retry-error',
+                  'implies(isinst_hailtop_httpx_ClientResponseError(e), result == (e.status == 400 and a_listed_message_is_in_the_body))')],
+        raises={}, canaries=[('never-limited', 'result == False')],
+    )
+
+
+def _native(which):
+    return core.run_native(open(os.path.join(os.path.dirname(os.path.abspath(__file__)), 'native', 'c21_replay.py')).read(), {'which': which})
+
+
+def _first_confirmed(*thunks):
+    r = {'confirmed': False}
+    for t in thunks:
+        r = t()
+        if isinstance(r, dict) and r.get('confirmed'):
+            return r
+        if not isinstance(r, dict) or 'confirmed' not in r:
+            return dict(r if isinstance(r, dict) else {}, confirmed=False, harness_error=True)
+    return r
+
+
 def native_witness(ctx):
     """concrete search on the real code, usable when the contracts no longer apply to a changed source (vc/check.py)"""
-    return (lambda r1, r2: r1 if r1.get('confirmed') else r2)(core.run_native(REPLAY, {'search': True}), core.run_native(REPLAY_RETRY, {}))
+    return _first_confirmed(lambda: core.run_native(REPLAY, {'search': True}), lambda: core.run_native(REPLAY_RETRY, {}), lambda: _native(['chain']), lambda: _native(['body']))
 
 
 def build(ctx):
     for c in classifier_contracts():
         pyvc.Engine(ctx, c).run()
+    src = core.read_repo(PATH)
+    chain_scans(ctx, src)
+    for c in chain_contracts(src) + [limited_http_contract()]:
+        e_ = pyvc.Engine(ctx, c)
+        e_.replayer = lambda model, obl: _native(['chain'])
+        e_.run()
+    for c in httpx_contracts():
+        e_ = pyvc.Engine(ctx, c)
+        e_.replayer = lambda model, obl: _native(['body'])
+        # a counter-model of the body clause is a string longer than the cut-off (1025+ characters): z3 5.1 does not find it
+        # within any budget (and ignores its timeout), cvc5 answers at once - ask cvc5 first for these VCs
+        e_.obl_info = {'cvc5_first': True}
+        e_.run()
     eng = pyvc.Engine(ctx, DELAY)
     eng.replayer = _delay_replayer(eng)
     eng.run()
@@ -392,10 +603,12 @@ def build(ctx):
     s.replayer = a.replayer
     s.run()
     _sleep_wrappers(ctx)
-    ctx.witness_search = lambda: (lambda r1, r2: r1 if r1.get('confirmed') else r2)(core.run_native(REPLAY, {'search': True}), core.run_native(REPLAY_RETRY, {}))
-    ctx.assume('is_limited_retries_error / is_rate_limit_error / is_transient_error are uninterpreted predicates of the exception (their bodies are not under contract)')
+    ctx.witness_search = lambda: native_witness(ctx)
+    ctx.assume('inside the retry loops is_limited_retries_error / is_rate_limit_error / is_transient_error are uninterpreted predicates of the exception; the classifiers own contracts state only: the http clauses, and that an error of none of the tested classes is classified by its explicit __cause__ chain alone')
+    ctx.assume('classifier contracts: isinstance(e, C) is an uninterpreted predicate per class C; RETRYABLE_ERRNOS, socket.EAI_* and (for the chain contracts) the message table are arbitrary; e.args[0] exists where the code reads it (aiohttp.ClientPayloadError)')
+    ctx.assume('hailtop.httpx: the aiohttp transport is an oracle (answers with an arbitrary response or raises); payload_of(resp) is what resp.read() yields, utf8_decoded(b) is b.decode(); the json/data preamble of request_and_raise_for_status is outside the fragment under contract; aiohttp.ClientResponseError.__init__ (super) does not touch self.body')
     ctx.assume('random.randrange(n) returns an integer in [0, n) for n > 0')
     ctx.assume('f is an oracle: any call either returns or raises an arbitrary exception; logging, time_msecs and traceback calls have no effect on control flow')
     ctx.assume('float division by 1000.0 treated as real division (the delay in seconds is only passed to sleep)')
     ctx.assume('sync_retry_transient_errors consults only is_transient_error; the contract for it is "raise iff not transient" with L and R ignored (stated deviation: the property text speaks of the helpers collectively)')
-    ctx.undecided('the classification functions themselves (which concrete exceptions are transient)')
+    ctx.undecided('which concrete exception classes the classifiers count as transient / limited-retry (their class tests); decided are the http clauses, the cause-chain traversal and the origin of e.body')
